@@ -40,6 +40,8 @@ func c02RuleAlphabet() []c02RuleVar {
 	out = append(out, c02RuleVar{kind: "pat", signal: "next@match"}, c02RuleVar{kind: "pat", signal: "readv"})
 	// next raised while the PATTERN of a rule is evaluated (in a callee): the element is abandoned, later rules do not see it
 	out = append(out, c02RuleVar{kind: "pat", pattern: 4})
+	// $, $file and $index read inside a function and inside a match arm, for every element
+	out = append(out, c02RuleVar{kind: "pat", signal: "viafunc"})
 	// a pattern that reads an element that does not exist: null, hence false
 	out = append(out, c02RuleVar{kind: "pat", pattern: 5})
 	out = append(out, c02RuleVar{kind: "pat", pattern: 3, noBody: true}, c02RuleVar{kind: "pat", pattern: 1, noBody: true})
@@ -102,6 +104,11 @@ func c02Rule(v c02RuleVar, id int, withIndex bool) *Rule {
 			Else: &If{Cond: &IsExpr{V("$"), "array"}, Then: Blk(Ex(CallE(Mem(V("$"), "push"), S(fmt.Sprintf("r%d", id))))), Else: Blk(Ex(Asg("=", V("$"), Arr_(V("$"), S("replaced")))))}})
 	}
 	switch v.signal {
+	case "viafunc":
+		body = append(body, Ex(CallE(V("ffile"))), Pr(S("arm"), &MatchExpr{Subj: N("1"), Cases: []MatchCase{{Pats: []Expr{V("m")}, Body: Arr_(V("$file"), V("$"))}}}))
+		if withIndex {
+			body = append(body, Ex(CallE(V("fidx"))), Pr(S("arm"), &MatchExpr{Subj: N("1"), Cases: []MatchCase{{Pats: []Expr{V("m")}, Body: V("$index")}}}))
+		}
 	case "next@match":
 		body = append(body, Ex(Asg("=", V("t"), &MatchExpr{Subj: V("$"), Cases: []MatchCase{{Pats: []Expr{V("v")}, Block: Blk(Pr(S("in case"), V("v")), &Next{})}}})), Pr(S("never")))
 	case "readv":
@@ -124,7 +131,7 @@ func c02Rule(v c02RuleVar, id int, withIndex bool) *Rule {
 func c02Valid(seq []int, alpha []c02RuleVar) bool {
 	sig := 0
 	for i, k := range seq {
-		if alpha[k].signal != "" && alpha[k].signal != "mutate" && alpha[k].signal != "readv" {
+		if alpha[k].signal != "" && alpha[k].signal != "mutate" && alpha[k].signal != "readv" && alpha[k].signal != "viafunc" {
 			sig++
 		}
 		if alpha[k].noBody && i+1 < len(seq) {
@@ -200,6 +207,8 @@ func c02Build(s c02Spec) *progCase {
 	alpha := c02RuleAlphabet()
 	p := &Program{Funcs: []*Func{
 		{Name: "nxp", Params: []string{"v"}, Body: Blk(Pr(S("pattern sees"), V("v")), &If{Cond: Bin("||", &IsExpr{V("v"), "object"}, Bin("==", V("v"), N("2"))), Then: Blk(&Next{})}, &Return{X: N("1")})},
+		{Name: "ffile", Body: Blk(Pr(S("in function"), V("$file"), V("$")))},
+		{Name: "fidx", Body: Blk(Pr(S("in function"), V("$index")))},
 		{Name: "nx", Body: Blk(&Next{})}, {Name: "ex", Body: Blk(&Exit{})}, {Name: "id", Params: []string{"v"}, Body: Blk(&Return{X: V("v")})}}}
 	wi := s.Cfg.allArrays()
 	for i, k := range s.Rules {
@@ -282,7 +291,7 @@ func init() {
 	n := len(alpha)
 	fw.Register(addTok(tokFramesC02, &fw.Prop{
 		ID: "C02",
-		Rule: "rule sequences over 34 rule variants (BEGIN/END/BEGINFILE/ENDFILE with nothing, exit or next; pattern-less, true, false and $>1 pattern rules with nothing, next or exit; next / exit raised in a callee inside a print list or an array literal; next raised by a callee while a rule's pattern is evaluated; next inside the block body of a binding match case and a rule that reads the bound name as a global; a body-less pattern rule, a rule that mutates $), every body printing its rule number, $, $file (and $index when every root is an array); " +
+		Rule: "rule sequences over 35 rule variants (BEGIN/END/BEGINFILE/ENDFILE with nothing, exit or next; pattern-less, true, false and $>1 pattern rules with nothing, next or exit; next / exit raised in a callee inside a print list or an array literal; next raised by a callee while a rule's pattern is evaluated; next inside the block body of a binding match case and a rule that reads the bound name as a global; a body-less pattern rule, a rule that mutates $), every body printing its rule number, $, $file (and $index when every root is an array); " +
 			"(A) all sequences of <= N rules on three rich configurations, (B) 16 fixed rich programs on all 915 configurations (0-2 files x 14 file contents incl. empty, two values and all root shapes x 5 selector lists), (C) all sequences of <= M rules on all configurations; " +
 			"oracle: the schedule model of DESIGN.md 3.13 (exact stdout, outcome and JSON output); a state is the order in which rule kinds fired; non-trivial = same",
 		Plan: func(t fw.Tier) int { return n*n + len(c02Configs()) },
